@@ -14,6 +14,7 @@ import (
 	"strings"
 	"time"
 
+	"ariga.io/atlas/internal/verifhook"
 	"ariga.io/atlas/sql/schema"
 )
 
@@ -871,13 +872,16 @@ func (e *Executor) Execute(ctx context.Context, m File) (err error) {
 	}
 	for _, stmt := range stmts[r.Applied:] {
 		e.log.Log(LogStmt{SQL: stmt.Text, Stmt: stmt})
+		verifhook.At("before_exec", "v", r.Version, "i", r.Applied+1, "sql", stmt.Text)
 		if _, err = e.drv.ExecContext(ctx, stmt.Text); err != nil {
+			verifhook.At("exec_failed", "v", r.Version, "i", r.Applied+1)
 			e.log.Log(LogError{SQL: stmt.Text, Stmt: stmt, Error: err})
 			r.done()
 			r.ErrorStmt = stmt.Text
 			r.Error = err.Error()
 			return &StmtExecError{File: m, Stmt: stmt, Version: r.Version, Err: err}
 		}
+		verifhook.At("after_exec", "v", r.Version, "i", r.Applied+1)
 		r.PartialHashes = append(r.PartialHashes, "h1:"+sums[r.Applied])
 		r.Applied++
 		// In case retry attempts succeeded,
@@ -900,9 +904,12 @@ func (e *Executor) Execute(ctx context.Context, m File) (err error) {
 func (e *Executor) writeRevision(ctx context.Context, r *Revision) error {
 	r.ExecutedAt = time.Now()
 	r.OperatorVersion = e.operator
+	verifhook.At("before_writerev", "v", r.Version, "applied", r.Applied, "total", r.Total, "err", r.Error != "", "partial", len(r.PartialHashes), "type", uint(r.Type))
 	if err := e.rrw.WriteRevision(ctx, r); err != nil {
+		verifhook.At("writerev_failed", "v", r.Version)
 		return &WriteRevisionError{Err: err, Revision: r}
 	}
+	verifhook.At("after_writerev", "v", r.Version, "applied", r.Applied, "total", r.Total)
 	return nil
 }
 
